@@ -6,6 +6,8 @@ From RG.Base Require Import Outcome GoInt GoSlice.
 From RG.Regex Require Import Utf8.
 From RG.Engine Require Import TruncateSpec RenderSpec RenderLoop RenderPre.
 From RGW Require Import Gen_C03 Inst_Render Gen_C03Loop Def_RenderLoop Inst_RenderLoop Gen_C03Pre Def_RenderPre Inst_RenderPre.
+From RG.Engine Require Import FileBytes.
+From RGW Require Import Gen_C03Src Inst_FileBytes.
 Import ListNotations.
 Local Open Scope Z_scope.
 
@@ -161,3 +163,38 @@ Example c03_report :
   mk_report {| r_msg := [36;120]; r_sugg := [36;36]; r_loc := Some [120]; r_line := 7 |} 0 whole [([120], x)]
   = Some {| rep_pos := 12; rep_end := 13; rep_msg := [49]; rep_sugg := Some (12, 13, [87]); rep_line := 7 |}.
 Proof. vm_compute. reflexivity. Qed.
+
+(* ---- the bytes the texts are sliced from: rulesRunner.fileBytes, translated from runner.go on this run, is the specification
+   (the slice this run already holds, else the file as it is on disk NOW), for every disk, file name and state of rr.src *)
+Theorem C03_translated_fileBytes_is_spec :
+  forall (d : disk) (name : bytes) (w : fworld), gen_fileBytes d name w = file_bytes d name w.
+Proof. exact gen_fileBytes_is_file_bytes. Qed.
+Print Assumptions C03_translated_fileBytes_is_spec.
+
+(* for every HISTORY of runs through one reused RunnerState -- any disks (the file may have been rewritten between two runs:
+   other bytes of the same length at the same path included), any file names, any number of nodeText calls per run, any
+   state the runner object was left in -- every nodeText of every run slices the bytes its file has on disk during that
+   run.  The reset flag is read off newRulesRunner on this run. *)
+Theorem C03_every_run_slices_the_file_of_its_time :
+  forall (runs : list frun) (w : fworld), history gen_fileBytes gen_c03_runner_reset w runs = map expected_of runs.
+Proof. exact gen_history_reads_current_disk. Qed.
+Print Assumptions C03_every_run_slices_the_file_of_its_time.
+
+Theorem C03_file_bytes_facts : forallb snd gen_c03_src_facts = true /\ (3 <= List.length gen_c03_src_facts)%nat.
+Proof. exact (conj c03_src_facts_hold c03_src_facts_count). Qed.
+Print Assumptions C03_file_bytes_facts.
+
+(* a cache of an earlier run's bytes is invisible exactly when what it is keyed by determines the bytes ... *)
+Theorem C03_cache_sound_when_key_determines_bytes :
+  forall (K : Type) (key : disk -> bytes -> K) (key_eqb : K -> K -> bool), key_determines key key_eqb ->
+  forall runs cache, cache_ok key key_eqb cache ->
+  cached_history key key_eqb cache runs = map (fun r => disk_bytes (fst r) (snd r)) runs.
+Proof. exact (@cached_history_sound). Qed.
+Print Assumptions C03_cache_sound_when_key_determines_bytes.
+
+(* ... and (file name, byte length) does not; neither does carrying rr.src from one run to the next *)
+Example c03_name_and_length_do_not_determine_the_bytes :
+  cached_history name_len_key name_len_eqb None [(disk_v1, [102]); (disk_v2, [102])] = [[97; 109; 121]; [97; 109; 121]]
+  /\ history file_bytes false fresh_runner [(disk_v1, [102], 1%nat); (disk_v2, [102], 1%nat)] = [[Some [97; 109; 121]]; [Some [97; 109; 121]]]
+  /\ history gen_fileBytes gen_c03_runner_reset fresh_runner [(disk_v1, [102], 1%nat); (disk_v2, [102], 1%nat)] = [[Some [97; 109; 121]]; [Some [101; 118; 101]]].
+Proof. repeat split; vm_compute; reflexivity. Qed.
